@@ -83,6 +83,7 @@ def describe_task(key):
         if w.has_ref(q):
             d["ref_unit"][q] = w.ref_unit(q)
             d["scales"][q] = {u: w.scale_exact(q, u) for u in w.units(q)}
+            d.setdefault("prefix", {})[q] = {u: w.si_prefix(q, u) for u in w.units(q)}
     return d
 
 
